@@ -1211,4 +1211,143 @@ example : travOk 2 (demoModS0.bseek 0) 0 1 = true ∧ travOk 2 demoModS0 demoMod
 example : lenAllOk demoModS = true ∧ 1 ≤ demoModS.len.1 ∧
     travOk (demoModS.len.1 - 1 + 1) (demoModS.len.2.bseek 0) 0 (demoModS.len.1 - 1) = true := by decide
 
+/-- the codec's `readline` does not hit a decoding error -/
+def goodLine (s : SStr) : Bool := !(s.rd.readline s.st).2.2.bad
+
+/-- one `self.buffer.readline().decode('utf-8')` on an object standing for `s`: `SStr.codecLine` -/
+theorem ss_codecLine_eq_model (st : SS) (s : SStr) (h : RelS st s) (hg : goodLine s = true) :
+    (CFile.readlineText st.buffer none).1 = .ok s.codecLine.1 ∧
+      RelS { st with buffer := (CFile.readlineText st.buffer none).2 } s.codecLine.2 := by
+  obtain ⟨h1, h2, h3, h4, h5, h6, h7⟩ := h
+  rcases st with ⟨⟨bst, brd, bcl, brl⟩, tl, ms, dir, ch⟩
+  simp only at h1 h2 h3 h4 h5 h6 h7
+  subst h1 h2 h3 h4 h5 h6 h7
+  simp only [goodLine, Bool.not_eq_true'] at hg
+  refine ⟨?_, ?_⟩
+  · simp [CFile.readlineText, hg, SStr.codecLine]
+  · constructor <;> simp [CFile.readlineText, hg, SStr.codecLine]
+
+/-- the loop test `ret and ret[-1] not in '\r\n'` is the negation of the model's exit test -/
+theorem ss_rl_cond (s0 : SpooledStringIO.readline.St) (h : s0.length = none) :
+    SpooledStringIO.readline.loop1.cond s0 = !(s0.loc1.isEmpty || endsCRLF s0.loc1) := by
+  unfold SpooledStringIO.readline.loop1.cond lastNotIn endsCRLF
+  rcases hl : s0.loc1.getLast? with _ | c
+  · have : s0.loc1 = [] := List.getLast?_eq_none_iff.mp hl
+    simp [h, this]
+  · have hne : s0.loc1 ≠ [] := by intro h0; simp [h0] at hl
+    have hne' : s0.loc1.isEmpty = false := by simpa using hne
+    simp [h, hne, hne']
+
+/-- the model's `rlJoin` ends by one of its exits (not by its fuel) and every codec line on the way is good -/
+def rlOk : Nat → List Char → SStr → Bool
+  | 0, _, _ => false
+  | k + 1, ret, s =>
+    if ret.isEmpty || endsCRLF ret then true
+    else goodLine s && (s.codecLine.1.isEmpty || rlOk k (ret ++ s.codecLine.1) s.codecLine.2)
+
+/-- THE JOINING LOOP of `readline`: with at least the model's fuel the generated loop ends normally in an object
+    standing for `SStr.rlJoin`, with the same line -/
+theorem ss_rl_sim (k : Nat) : ∀ (n : Nat) (s0 : SpooledStringIO.readline.St) (s : SStr) (ret : List Char),
+    RelS s0.self s → s0.length = none → s0.loc1 = ret → rlOk k ret s = true → k ≤ n →
+    ∃ s', whileLoop SpooledStringIO.readline.loop1.cond SpooledStringIO.readline.loop1.body n s0 = (.next, s') ∧
+      RelS s'.self (SStr.rlJoin k ret s).2 ∧ s'.loc1 = (SStr.rlJoin k ret s).1 := by
+  induction k with
+  | zero => intro n s0 s ret _ _ _ hok; simp [rlOk] at hok
+  | succ k ih =>
+    intro n s0 s ret hr hlen hret hok hn
+    obtain ⟨n, rfl⟩ : ∃ n', n = n' + 1 := ⟨n - 1, by omega⟩
+    rw [whileLoop_succ, ss_rl_cond s0 hlen, hret]
+    unfold rlOk at hok
+    unfold SStr.rlJoin
+    by_cases h1 : (ret.isEmpty || endsCRLF ret) = true
+    · rw [if_pos h1]
+      refine ⟨s0, ?_, hr, hret⟩
+      simp [h1]
+    · rw [if_neg h1] at hok ⊢
+      have h1' : (!(ret.isEmpty || endsCRLF ret)) = true := by simpa using h1
+      rw [h1', if_pos rfl]
+      simp only [Bool.and_eq_true, Bool.or_eq_true] at hok
+      have hcl := ss_codecLine_eq_model s0.self s hr hok.1
+      rcases hline : CFile.readlineText s0.self.buffer none with ⟨r, b1⟩
+      rw [hline] at hcl
+      simp only at hcl
+      by_cases h3 : s.codecLine.1.isEmpty = true
+      · rw [if_pos h3]
+        have h3' : s.codecLine.1 = [] := by simpa using h3
+        refine ⟨{ s0 with self := { s0.self with buffer := b1 }, loc2 := s.codecLine.1 }, ?_, hcl.2, hret⟩
+        simp [SpooledStringIO.readline.loop1.body, hline, hcl.1, h3']
+      · rw [if_neg h3]
+        have h3' : s.codecLine.1 ≠ [] := by simpa using h3
+        have hok2 : rlOk k (ret ++ s.codecLine.1) s.codecLine.2 = true := by
+          rcases hok.2 with h | h
+          · exact absurd h h3
+          · exact h
+        obtain ⟨s', hs', hrel', hl'⟩ := ih n
+          { s0 with self := { s0.self with buffer := b1 }, loc2 := s.codecLine.1, loc1 := s0.loc1 ++ s.codecLine.1 }
+          s.codecLine.2 (ret ++ s.codecLine.1) hcl.2 hlen (by simp [hret]) hok2 (by omega)
+        refine ⟨s', ?_, hrel', hl'⟩
+        rw [← hs']
+        simp [SpooledStringIO.readline.loop1.body, hline, hcl.1, h3']
+
+theorem ss_rl_sim_of_eq (k n : Nat) (s0 s1 : SpooledStringIO.readline.St) (fl : Flow (List Char)) (s : SStr)
+    (ret : List Char)
+    (heq : whileLoop SpooledStringIO.readline.loop1.cond SpooledStringIO.readline.loop1.body n s0 = (fl, s1))
+    (hr : RelS s0.self s) (hlen : s0.length = none) (hret : s0.loc1 = ret) (hok : rlOk k ret s = true) (hk : k ≤ n) :
+    fl = .next ∧ RelS s1.self (SStr.rlJoin k ret s).2 ∧ s1.loc1 = (SStr.rlJoin k ret s).1 := by
+  obtain ⟨s', hs', hrel, hl⟩ := ss_rl_sim k n s0 s ret hr hlen hret hok hk
+  rw [hs'] at heq
+  cases heq
+  exact ⟨rfl, hrel, hl⟩
+
+theorem SStr.rlJoin_tell (k : Nat) : ∀ (ret : List Char) (s : SStr), (SStr.rlJoin k ret s).2.tell = s.tell := by
+  induction k with
+  | zero => intro ret s; rfl
+  | succ k ih =>
+    intro ret s
+    unfold SStr.rlJoin
+    split
+    · rfl
+    · split
+      · rfl
+      · rw [ih]; rfl
+
+/-- what `readline()` needs of the model state: the first codec line is good and the joining loop ends by an exit -/
+def rlAllOk (s : SStr) : Bool :=
+  goodLine s && rlOk (s.st.data.length + 2) s.codecLine.1 s.codecLine.2
+
+/-- `readline()` (no length): `SStr.readline` — codec lines joined until one ends in CR / LF, `_tell` advanced by the
+    number of code points returned -/
+theorem src_ss_readline_eq_model (lfuel : Nat) (st : SS) (s : SStr) (h : RelS st s) (hok : rlAllOk s = true)
+    (hk : s.st.data.length + 2 ≤ lfuel) :
+    (SpooledStringIO.readline lfuel st none).1 = .ok s.readline.1 ∧
+      RelS (SpooledStringIO.readline lfuel st none).2 s.readline.2 := by
+  simp only [rlAllOk, Bool.and_eq_true] at hok
+  have hcl := ss_codecLine_eq_model st s h hok.1
+  rcases hline : CFile.readlineText st.buffer none with ⟨r, b1⟩
+  rw [hline] at hcl
+  simp only at hcl
+  obtain ⟨hcl1, hcl2⟩ := hcl
+  subst hcl1
+  simp only [SpooledStringIO.readline, SpooledStringIO.readline.body, seq_apply, bindE_apply, assign_apply, skip_apply,
+    ret_apply, ss_checkClosed_open _ _ h.opened, hline]
+  split
+  · rename_i x s1 heq
+    obtain ⟨_, hrel, hl⟩ := ss_rl_sim_of_eq (s.st.data.length + 2) lfuel _ _ _ s.codecLine.2 s.codecLine.1 heq
+      (by simpa using hcl2) rfl rfl hok.2 hk
+    have hc1 : s1.self.buffer.closed = false := hrel.opened
+    refine ⟨?_, ?_⟩
+    · simp [src_ss_tell_eq_model, hc1, hl, SStr.readline]
+    · constructor <;>
+        simp [src_ss_tell_eq_model, hc1, hl, SStr.readline, hrel.stream, hrel.reader, hrel.real, hrel.max, hrel.chunk,
+          hrel.tell, PyRt.len, SStr.rlJoin_tell, SStr.codecLine]
+  · rename_i x fl s1 hne heq
+    obtain ⟨hfl, _, _⟩ := ss_rl_sim_of_eq (s.st.data.length + 2) lfuel _ _ _ s.codecLine.2 s.codecLine.1 heq
+      (by simpa using hcl2) rfl rfl hok.2 hk
+    exact absurd hfl hne
+
+/-- non-vacuity: the hypotheses of the `readline` tie hold where the codec ends a line at a form feed and the loop joins
+    the next codec line (up to the LF) to it -/
+def demoModL : SStr := ⟨⟨encode ['é', Char.ofNat 12, 'b', Char.ofNat 10, 'c'], 0⟩, {}, 0, false, 100, 2⟩
+example : rlAllOk demoModL = true ∧ demoModL.readline.1 = ['é', Char.ofNat 12, 'b', Char.ofNat 10] := by decide
+
 end C18
